@@ -223,6 +223,46 @@ pub fn run(ctx: &'static Ctx) {
         }
         emb.fetch_add(1, Ordering::Relaxed);
     });
+    // ResourceTemplate: its buffer-size operand covers the children plus the 2-byte end tag; children of every total
+    // size 0..=70000 (one opaque child of that many bytes, and the same total split over three children)
+    struct Blob(usize);
+    impl Aml for Blob {
+        fn to_aml_bytes(&self, sink: &mut dyn acpi_tables::AmlSink) {
+            for i in 0..self.0 {
+                sink.byte(0x22 + (i % 5) as u8);
+            }
+        }
+    }
+    (0..=max).into_par_iter().for_each(|n| {
+        for split in [false, true] {
+            if split && (n < 3 || (n > 5000 && n % 257 != 0)) {
+                continue;
+            }
+            let (a, b2, c) = if split { (Blob(n / 3), Blob(n / 3), Blob(n - 2 * (n / 3))) } else { (Blob(n), Blob(0), Blob(0)) };
+            let kids: Vec<&dyn Aml> = if split { vec![&a, &b2, &c] } else { vec![&a] };
+            let b = ser(&acpi_tables::aml::ResourceTemplate::new(kids));
+            let ok = (|| {
+                if b[0] != 0x11 {
+                    return None;
+                }
+                let (pl, w, _) = pkg_decode(&b[1..])?;
+                if pl != b.len() - 1 {
+                    return None;
+                }
+                let (v, used) = int_decode(&b[1 + w..])?;
+                let mut want = vec![];
+                int_encode(n as u64 + 2, &mut want);
+                if v != n as u64 + 2 || used != want.len() || b.len() != 1 + w + used + n + 2 {
+                    return None;
+                }
+                Some(())
+            })();
+            if ok.is_none() {
+                ctx.violation_sized("int:embedded:template-size", n as u64, || format!("ResourceTemplate with {} child bytes{}: size operand is not the narrowest encoding of {}: {}", n, if split { " (three children)" } else { "" }, n + 2, hex(&b[..12.min(b.len())])), || json!({"family":"int-embedded","template_child_bytes":n,"split":split}));
+            }
+            emb.fetch_add(1, Ordering::Relaxed);
+        }
+    });
     for v in vals.iter().take(4000) {
         let b = ser(&Package::new(vec![v as &dyn Aml]));
         let mut want = vec![0x12u8];
